@@ -883,6 +883,13 @@ def o_c08(rec):
     b = rec.built
     out = []
     info = {"exception": None}
+    if rec.exc is not None and type(rec.exc) in (
+            ArithmeticError, StopIteration) and str(rec.exc).startswith(
+            "injected"):
+        # the failure of a USER function (injected by the workload)
+        # propagates: that is the user's exception, not an internal one
+        info["exception"] = "user:" + type(rec.exc).__name__
+        return out, info
     if rec.exc is not None:
         info["exception"] = type(rec.exc).__name__
         out.append(V("exception_escaped",
